@@ -217,6 +217,21 @@ def case_season_refusals(mon):
                 continue
             mon.dev("season.refuses-other-years",
                     {"year": y, "returned": repr(r)})
+    # the four season names are a closed set
+    for t in ("", "s", "spr", "Spring", "SUMMER", "autum", "fall", "winter ",
+              "springsummer", "summerautumn", "er", "n"):
+        mon.evals += 1
+        try:
+            r = Sun.get_equinox_solstice(2000, t)
+        except ValueError:
+            mon.ok("season.refuses-other-years")
+            continue
+        except Exception as ex:
+            mon.dev("season.refuses-other-years",
+                    {"year": 2000, "target": t, "raised": repr(ex)})
+            continue
+        mon.dev("season.refuses-other-years",
+                {"year": 2000, "target": t, "returned": repr(r)})
     for y in (2000.5, 1999.0):
         mon.evals += 1
         try:
